@@ -130,7 +130,7 @@ def templates(cmd):
             cmd + "^2", cmd + "_i", cmd + other, cmd + cmd, "(" + cmd + ")" + ">=" + cmd]
 
 
-SPECIALS = ["a^b", "a_b", "x>=y", "x<=y", "<=>=", "a\nb", "\\pagenumber", "\\totalpage", "\\pagefield", "Page \\pagenumber of \\pagefield",
+SPECIALS = ["a^b", "a_b", "x>=y", "x<=y", "<=>=", "a\nb", "a\n", "\nb", "\n", "a\n\nb", "x\n ", "\\pagenumber", "\\totalpage", "\\pagefield", "Page \\pagenumber of \\pagefield",
             "\\leq", "\\geq x", "_\\alpha", "^\\beta_\\gamma", "a>=\\alpha", "x^", "_", "^", ">=", "<=", "=>", "=<", "a>b<c", "\\pagenumberx",
             "\\totalpages", "a\\\\b".replace("\\\\", "\\zqa "), "\\sqrt[3]", "\\sqrt[4]x", "\\|", "\\:", "\\zqfoo", "\\zqfoo{a b}", "\\Alpha \\alpha",
             "\\mathbb {R}", "\\mathbb{R}x", "\\mathbb{RR}", "\\mathbb{r}", "\\mathcal{L}(\\theta)", "\\mathbb{\\Gamma}", "\\alpha{}\\beta", "50\\% \\pm 2"]
